@@ -326,6 +326,22 @@ fn handle(req: &Value) -> Value {
                 Err(e) => err_json(&e),
             }
         }
+        // C18: the same with the path given as raw bytes (hex), for file names that are not valid UTF-8
+        "hash_tree_hex" => {
+            use std::os::unix::ffi::OsStrExt;
+            let raw = hex::decode(s(req, "dir_hex")).unwrap_or_default();
+            let path = PathBuf::from(std::ffi::OsStr::from_bytes(&raw));
+            match agentpack::lockfile::hash_tree(&path) {
+                Ok((files, h)) => {
+                    let fv: Vec<Value> = files
+                        .iter()
+                        .map(|f| json!({"path": f.path, "sha256": f.sha256, "bytes": f.bytes}))
+                        .collect();
+                    json!({"ok": {"files": fv, "sha256": h}})
+                }
+                Err(e) => err_json(&e),
+            }
+        }
         "hash_tree" => match agentpack::lockfile::hash_tree(Path::new(&s(req, "dir"))) {
             Ok((files, h)) => {
                 let fv: Vec<Value> = files
